@@ -67,6 +67,16 @@ impl Diagnostic {
                 crate::verif_hooks::record_expected("User", &[])
             }
         }
+        #[cfg(feature = "verif-hooks")]
+        crate::verif_hooks::record_span(match &e {
+            lalrpop_util::ParseError::InvalidToken { location }
+            | lalrpop_util::ParseError::UnrecognizedEOF { location, .. } => {
+                Some((*location, *location))
+            }
+            lalrpop_util::ParseError::UnrecognizedToken { token, .. }
+            | lalrpop_util::ParseError::ExtraToken { token } => Some((token.0, token.2)),
+            lalrpop_util::ParseError::User { .. } => None,
+        });
 
         match e {
             lalrpop_util::ParseError::InvalidToken { location } => Some(Diagnostic {
